@@ -1,4 +1,476 @@
+(* C19 — lemmas. *)
 From Coq Require Import List NArith Bool Lia.
 Import ListNotations.
 From VF Require Import C19.Model.
 Local Open Scope N_scope.
+
+(* ---------- the gate ---------- *)
+
+Lemma find_session_some : forall ss t k s,
+  find_session ss t k = Some s -> In s ss /\ s_tok s = k /\ live t s = true.
+Proof.
+  intros ss t k s H. unfold find_session in H. apply find_some in H. destruct H as [Hin H].
+  apply andb_true_iff in H. destruct H as [H1 H2]. apply N.eqb_eq in H1. auto.
+Qed.
+
+Lemma find_session_none : forall ss t k,
+  find_session ss t k = None -> forall s, In s ss -> s_tok s = k -> live t s = false.
+Proof.
+  intros ss t k H s Hin Hk. unfold find_session in H.
+  pose proof (find_none _ _ H s Hin) as Hn. cbn beta in Hn.
+  rewrite Hk, N.eqb_refl in Hn. exact Hn.
+Qed.
+
+Lemma not_foreign_own : forall ss t k u s,
+  foreign ss t k u = false -> In s ss -> s_tok s = k -> live t s = true -> s_user s = u.
+Proof.
+  intros ss t k u s Hf Hin Hk Hl. unfold foreign in Hf.
+  destruct (s_user s =? u) eqn:E; [apply N.eqb_eq; exact E|].
+  assert (X : existsb (fun s0 => (s_tok s0 =? k) && live t s0 && negb (s_user s0 =? u)) ss = true).
+  { apply existsb_exists. exists s. split; [exact Hin|]. rewrite Hk, N.eqb_refl, Hl, E. reflexivity. }
+  congruence.
+Qed.
+
+Lemma live_own_intro : forall st t u s,
+  In s (sessions st) -> s_tok s = t -> live (now st) s = true -> s_user s = u -> live_own st t u = true.
+Proof.
+  intros st t u s Hin Ht Hl Hu. unfold live_own. apply existsb_exists. exists s. split; [exact Hin|].
+  rewrite Ht, Hu, !N.eqb_refl, Hl. reflexivity.
+Qed.
+
+Lemma content_op_admitted : forall st u k, k <> KCreateKey -> admitted (snd (content_op st u k)) = true.
+Proof.
+  intros st u k Hk. destruct k; cbn; try congruence; try reflexivity.
+  - destruct (row_get _ _); reflexivity.
+  - destruct (row_get _ _); reflexivity.
+Qed.
+
+(* T1: on the repaired code an admitted token operation presented a live token of the instance's own profile *)
+Lemma admitted_own : forall st i t k u h,
+  nth_error (insts st) i = Some (u, h) ->
+  admitted (snd (step Fixed st (WOp i t k))) = true ->
+  live_own st t u = true.
+Proof.
+  intros st i t k u h Hi Ha. cbn [step] in Ha. rewrite Hi in Ha.
+  destruct (foreign (sessions st) (now st) t u) eqn:Hf; [cbn in Ha; discriminate|].
+  destruct (find_session (sessions st) (now st) t) as [s|] eqn:Hs.
+  - apply find_session_some in Hs. destruct Hs as [Hin [Ht Hl]].
+    eapply live_own_intro; eauto. eapply not_foreign_own; eauto.
+  - destruct k; cbn in Ha; try discriminate; destruct h; cbn in Ha; discriminate.
+Qed.
+
+(* T2: a rejected token operation leaves the whole state (stores, keys, sessions AND their expiries) as it was *)
+Lemma rejected_same : forall v st i t k,
+  admitted (snd (step v st (WOp i t k))) = false -> fst (step v st (WOp i t k)) = st.
+Proof.
+  intros v st i t k Ha. cbn [step] in *.
+  destruct (nth_error (insts st) i) as [[u h]|]; [|reflexivity].
+  destruct (match v with Fixed => foreign (sessions st) (now st) t u | AsIs => false end); [reflexivity|].
+  destruct k.
+  all: try (destruct h; cbn [negb] in *; [|reflexivity];
+            destruct (find_session (sessions st) (now st) t); [|reflexivity];
+            exfalso; match type of Ha with admitted (snd (content_op ?a ?b ?c)) = false =>
+              assert (X : admitted (snd (content_op a b c)) = true) by (apply content_op_admitted; congruence) end;
+            congruence).
+  destruct (find_session (sessions st) (now st) t); [cbn in Ha; discriminate|reflexivity].
+Qed.
+
+(* T3: a token without a live session (never issued, closed, expired) is rejected, by either variant *)
+Lemma dead_token_rejected : forall v st i t k,
+  (forall s, In s (sessions st) -> s_tok s = t -> live (now st) s = false) ->
+  admitted (snd (step v st (WOp i t k))) = false.
+Proof.
+  intros v st i t k Hd. cbn [step].
+  destruct (nth_error (insts st) i) as [[u h]|]; [|reflexivity].
+  destruct (match v with Fixed => foreign (sessions st) (now st) t u | AsIs => false end); [reflexivity|].
+  assert (Hn : find_session (sessions st) (now st) t = None).
+  { destruct (find_session (sessions st) (now st) t) as [s|] eqn:Hs; [|reflexivity].
+    apply find_session_some in Hs. destruct Hs as [Hin [Ht Hl]]. rewrite (Hd s Hin Ht) in Hl. discriminate. }
+  rewrite Hn. destruct k; try reflexivity; destruct h; reflexivity.
+Qed.
+
+(* T3': a token of another profile is rejected on the repaired code even while it is live *)
+Lemma foreign_token_rejected : forall st i t k u h s,
+  nth_error (insts st) i = Some (u, h) ->
+  In s (sessions st) -> s_tok s = t -> live (now st) s = true -> s_user s <> u ->
+  step Fixed st (WOp i t k) = (st, RBadToken).
+Proof.
+  intros st i t k u h s Hi Hin Ht Hl Hu. cbn [step]. rewrite Hi.
+  assert (X : foreign (sessions st) (now st) t u = true).
+  { apply existsb_exists. exists s. split; [exact Hin|]. rewrite Ht, N.eqb_refl, Hl.
+    destruct (s_user s =? u) eqn:E; [apply N.eqb_eq in E; contradiction|reflexivity]. }
+  rewrite X. reflexivity.
+Qed.
+
+(* close: afterwards no token of that profile is live, whatever instance was used *)
+Lemma close_revokes : forall v st i u h t,
+  nth_error (insts st) i = Some (u, h) ->
+  live_own (fst (step v st (WClose i))) t u = false.
+Proof.
+  intros v st i u h t Hi. cbn [step]. rewrite Hi.
+  destruct (user_live (sessions st) (now st) u) eqn:Hu; cbn [fst]; unfold live_own; cbn [sessions now].
+  - apply not_true_iff_false. intro H. apply existsb_exists in H. destruct H as [s [Hin H]].
+    unfold drop_user in Hin. apply filter_In in Hin. destruct Hin as [_ Hf].
+    apply andb_true_iff in H. destruct H as [H Hus]. apply andb_true_iff in H. destruct H as [_ Hl].
+    rewrite Hus, Hl in Hf. discriminate.
+  - apply not_true_iff_false. intro H. apply existsb_exists in H. destruct H as [s [Hin H]].
+    apply andb_true_iff in H. destruct H as [H Hus]. apply andb_true_iff in H. destruct H as [_ Hl].
+    assert (X : user_live (sessions st) (now st) u = true).
+    { apply existsb_exists. exists s. split; [exact Hin|]. rewrite Hus, Hl. reflexivity. }
+    congruence.
+Qed.
+
+(* expiry: once the clock has passed the expiry of every session of a token, the token is rejected;
+   a session's expiry is now + ttl after each admitted use and is moved by nothing else (rejected_same, tick below) *)
+Lemma tick_keeps_sessions : forall v st dt,
+  sessions (fst (step v st (WTick dt))) = sessions st /\ now (fst (step v st (WTick dt))) = now st + dt.
+Proof. intros; cbn; auto. Qed.
+
+Lemma refresh_exp : forall ss t k s',
+  In s' (refresh ss t k) -> s_tok s' = k -> live t s' = true -> s_exp s' = t + s_ttl s'.
+Proof.
+  intros ss t k s' Hin Hk Hl. unfold refresh in Hin. apply in_map_iff in Hin. destruct Hin as [s [Hs Hin]].
+  destruct ((s_tok s =? k) && live t s) eqn:E.
+  - subst s'. reflexivity.
+  - subst s'. rewrite Hk, N.eqb_refl, Hl in E. discriminate.
+Qed.
+
+(* ---------- isolation of contents ---------- *)
+
+Lemma row_get_in : forall l c x, row_get l c = Some x -> In (c, x) l.
+Proof.
+  induction l as [|[c' v] r IH]; cbn; intros c x H; [discriminate|].
+  destruct (c =? c') eqn:E.
+  - apply N.eqb_eq in E. inversion H. subst. auto.
+  - right. auto.
+Qed.
+
+Lemma rows_of_in : forall cs u p, In p (rows_of cs u) -> In (u, p) cs.
+Proof.
+  intros cs u p H. unfold rows_of in H. apply in_map_iff in H. destruct H as [[u' q] [Hq Hin]].
+  apply filter_In in Hin. destruct Hin as [Hin Hf]. cbn in *. apply N.eqb_eq in Hf. subst. exact Hin.
+Qed.
+
+Lemma insert_row_in : forall x l p, In p (insert_row x l) -> p = x \/ In p l.
+Proof.
+  induction l as [|y r IH]; cbn; intros p H.
+  - destruct H as [H|[]]; auto.
+  - destruct (fst x <=? fst y); cbn in H.
+    + destruct H as [H|H]; auto.
+    + destruct H as [H|H]; auto. apply IH in H. destruct H; auto.
+Qed.
+
+Lemma sort_rows_in : forall l p, In p (sort_rows l) -> In p l.
+Proof.
+  induction l as [|y r IH]; cbn; intros p H; [exact H|].
+  apply insert_row_in in H. destruct H as [H|H]; auto.
+Qed.
+
+(* whatever Get / GetAll hand back through an instance of profile u is a row of profile u's store *)
+Lemma get_reads_own : forall v st i t c u h st' x,
+  nth_error (insts st) i = Some (u, h) ->
+  step v st (WOp i t (KGet c)) = (st', RVal x) -> In (u, (c, x)) (contents st).
+Proof.
+  intros v st i t c u h st' x Hi H. cbn [step] in H. rewrite Hi in H.
+  destruct (match v with Fixed => foreign (sessions st) (now st) t u | AsIs => false end); [discriminate|].
+  destruct h; cbn [negb] in H; [|discriminate].
+  destruct (find_session (sessions st) (now st) t); [|discriminate].
+  unfold content_op in H. cbn [contents upd_sessions] in H.
+  destruct (row_get (rows_of (contents st) u) c) eqn:E; inversion H; subst.
+  apply rows_of_in. apply row_get_in. exact E.
+Qed.
+
+Lemma getall_reads_own : forall v st i t u h st' l,
+  nth_error (insts st) i = Some (u, h) ->
+  step v st (WOp i t KGetAll) = (st', RAll l) -> forall c x, In (c, x) l -> In (u, (c, x)) (contents st).
+Proof.
+  intros v st i t u h st' l Hi H c x Hin. cbn [step] in H. rewrite Hi in H.
+  destruct (match v with Fixed => foreign (sessions st) (now st) t u | AsIs => false end); [discriminate|].
+  destruct h; cbn [negb] in H; [|discriminate].
+  destruct (find_session (sessions st) (now st) t); [|discriminate].
+  unfold content_op in H. cbn [contents upd_sessions] in H.
+  inversion H; subst. apply rows_of_in. apply sort_rows_in. exact Hin.
+Qed.
+
+Lemma filter_filter_weaker : forall (A : Type) (f g : A -> bool) l,
+  (forall x, g x = true -> f x = true) -> filter g (filter f l) = filter g l.
+Proof.
+  intros A f g l H. induction l as [|a r IH]; cbn; [reflexivity|].
+  destruct (f a) eqn:Ef; cbn.
+  - rewrite IH. reflexivity.
+  - destruct (g a) eqn:Eg; [rewrite (H a Eg) in Ef; discriminate|exact IH].
+Qed.
+
+Lemma rows_of_cons_other : forall cs u u' p, (u =? u') = false -> rows_of ((u, p) :: cs) u' = rows_of cs u'.
+Proof. intros cs u u' p H. unfold rows_of. cbn [filter fst]. rewrite H. reflexivity. Qed.
+
+(* no operation through an instance of profile u (and no other operation at all) touches the rows of u' <> u *)
+Lemma others_rows_untouched : forall v st o u',
+  (forall i t k, o = WOp i t k -> inst_user st i <> Some u') ->
+  rows_of (contents (fst (step v st o))) u' = rows_of (contents st) u'.
+Proof.
+  intros v st o u' Hno. destruct o as [u|u|i p ttl|i|dt|i t k]; cbn [step].
+  - destruct (existsb (N.eqb u) (profiles st)); reflexivity.
+  - destruct (negb (existsb (N.eqb u) (profiles st))); [reflexivity|].
+    destruct (store_get (stores st) u); [destruct (_ <? _)|]; reflexivity.
+  - destruct (nth_error (insts st) i) as [[u h]|]; [|reflexivity].
+    destruct (negb p); [reflexivity|]. destruct (user_live _ _ _); reflexivity.
+  - destruct (nth_error (insts st) i) as [[u h]|]; [|reflexivity].
+    destruct (user_live _ _ _); reflexivity.
+  - reflexivity.
+  - specialize (Hno i t k eq_refl). unfold inst_user in Hno.
+    destruct (nth_error (insts st) i) as [[u h]|]; [|reflexivity].
+    assert (Hu : (u =? u') = false).
+    { destruct (u =? u') eqn:E; [apply N.eqb_eq in E; subst; exfalso; apply Hno; reflexivity|reflexivity]. }
+    destruct (match v with Fixed => foreign (sessions st) (now st) t u | AsIs => false end); [reflexivity|].
+    destruct k.
+    5: { destruct (find_session _ _ _); reflexivity. }
+    all: destruct h; cbn [negb]; [|reflexivity]; destruct (find_session _ _ _); [|reflexivity]; cbn.
+    + destruct (row_get _ _); cbn [fst contents upd_contents]; [reflexivity|]. apply rows_of_cons_other. exact Hu.
+    + destruct (row_get _ _); reflexivity.
+    + reflexivity.
+    + unfold rows_of. f_equal. apply filter_filter_weaker. intros [a [b d]] Hx. cbn [fst snd] in *.
+      apply N.eqb_eq in Hx. subst a. rewrite N.eqb_sym, Hu. reflexivity.
+Qed.
+
+(* ---------- history invariants ---------- *)
+
+Definition add_rec (st : wstate) (o : wop) (x : wout) : list (user * (cid * N)) :=
+  match o, x with
+  | WOp i _ (KAdd c n), RDone => match inst_user st i with Some u => [(u, (c, n))] | None => [] end
+  | _, _ => []
+  end.
+
+Lemma step_contents : forall v st o row,
+  In row (contents (fst (step v st o))) ->
+  In row (contents st) \/ In row (add_rec st o (snd (step v st o))).
+Proof.
+  intros v st o row H. destruct o as [u|u|i p ttl|i|dt|i t k]; cbn [step] in *.
+  - destruct (existsb (N.eqb u) (profiles st)); auto.
+  - destruct (negb (existsb (N.eqb u) (profiles st))); auto.
+    destruct (store_get (stores st) u); [destruct (_ <? _)|]; auto.
+  - destruct (nth_error (insts st) i) as [[u h]|]; auto.
+    destruct (negb p); auto. destruct (user_live _ _ _); auto.
+  - destruct (nth_error (insts st) i) as [[u h]|]; auto. destruct (user_live _ _ _); auto.
+  - auto.
+  - unfold add_rec, inst_user.
+    destruct (nth_error (insts st) i) as [[u h]|]; auto.
+    destruct (match v with Fixed => foreign (sessions st) (now st) t u | AsIs => false end); auto.
+    destruct k.
+    5: { destruct (find_session _ _ _); auto. }
+    all: destruct h; cbn [negb] in *; auto; destruct (find_session _ _ _); auto; cbn in *.
+    + destruct (row_get _ _); cbn in *; auto; destruct H as [H|H]; auto; right; left; auto.
+    + destruct (row_get _ _); auto.
+    + apply filter_In in H. destruct H. auto.
+Qed.
+
+Lemma rows_provenance_gen : forall v ops st row,
+  In row (contents (fst (run v st ops))) -> In row (contents st) \/ In row (adds_run v st ops).
+Proof.
+  intros v ops. induction ops as [|o r IH]; intros st row H; cbn in *; auto.
+  pose proof (step_contents v st o row) as Hs.
+  destruct (step v st o) as [s1 x] eqn:E. cbn [fst snd] in *.
+  destruct (run v s1 r) as [s2 xs] eqn:E2. cbn [fst] in H.
+  specialize (IH s1 row). rewrite E2 in IH. cbn [fst] in IH. apply IH in H.
+  destruct H as [H|H].
+  - apply Hs in H. destruct H as [H|H]; auto. right. apply in_or_app. left.
+    unfold add_rec in H. exact H.
+  - right. apply in_or_app. auto.
+Qed.
+
+(* sessions: every session of a reachable state was granted by an Open of an instance of its user *)
+Definition grant_rec (st : wstate) (o : wop) (x : wout) : list (tok * user) :=
+  match o, x with
+  | WOpen i _ _, RTok t => match inst_user st i with Some u => [(t, u)] | None => [] end
+  | _, _ => []
+  end.
+
+Lemma refresh_proj : forall ss t k s', In s' (refresh ss t k) ->
+  exists s, In s ss /\ s_tok s = s_tok s' /\ s_user s = s_user s'.
+Proof.
+  intros ss t k s' H. unfold refresh in H. apply in_map_iff in H. destruct H as [s [Hs Hin]].
+  exists s. split; [exact Hin|]. destruct ((s_tok s =? k) && live t s); subst s'; auto.
+Qed.
+
+Lemma step_sessions : forall v st o s',
+  In s' (sessions (fst (step v st o))) ->
+  (exists s, In s (sessions st) /\ s_tok s = s_tok s' /\ s_user s = s_user s') \/
+  In (s_tok s', s_user s') (grant_rec st o (snd (step v st o))).
+Proof.
+  intros v st o s' H.
+  assert (Hsame : In s' (sessions st) -> (exists s, In s (sessions st) /\ s_tok s = s_tok s' /\ s_user s = s_user s') \/
+                                       In (s_tok s', s_user s') (grant_rec st o (snd (step v st o)))).
+  { intro. left. exists s'. auto. }
+  destruct o as [u|u|i p ttl|i|dt|i t k]; cbn [step] in *.
+  - destruct (existsb (N.eqb u) (profiles st)); auto.
+  - destruct (negb (existsb (N.eqb u) (profiles st))); auto.
+    destruct (store_get (stores st) u); [destruct (_ <? _)|]; auto.
+  - unfold grant_rec, inst_user. destruct (nth_error (insts st) i) as [[u h]|]; auto.
+    destruct (negb p); auto. destruct (user_live _ _ _); auto.
+    cbn in H. destruct H as [H|H].
+    + right. subst s'. cbn. auto.
+    + left. exists s'. auto.
+  - destruct (nth_error (insts st) i) as [[u h]|]; auto. destruct (user_live _ _ _); auto.
+    cbn in H. unfold drop_user in H. apply filter_In in H. destruct H. left. exists s'. auto.
+  - auto.
+  - destruct (nth_error (insts st) i) as [[u h]|]; auto.
+    destruct (match v with Fixed => foreign (sessions st) (now st) t u | AsIs => false end); auto.
+    destruct k.
+    5: { destruct (find_session _ _ _); auto. cbn in H. left. eapply refresh_proj; eauto. }
+    all: destruct h; cbn [negb] in *; auto; destruct (find_session _ _ _); auto; cbn in *.
+    + destruct (row_get _ _); cbn in *; left; eapply refresh_proj; eauto.
+    + destruct (row_get _ _); cbn in *; left; eapply refresh_proj; eauto.
+    + left; eapply refresh_proj; eauto.
+    + left; eapply refresh_proj; eauto.
+Qed.
+
+Lemma sessions_granted_gen : forall v ops st s',
+  In s' (sessions (fst (run v st ops))) ->
+  (exists s, In s (sessions st) /\ s_tok s = s_tok s' /\ s_user s = s_user s') \/
+  In (s_tok s', s_user s') (grants_run v st ops).
+Proof.
+  intros v ops. induction ops as [|o r IH]; intros st s' H; cbn in *.
+  - left. exists s'. auto.
+  - pose proof (step_sessions v st o) as Hs.
+    destruct (step v st o) as [s1 x] eqn:E. cbn [fst snd] in *.
+    destruct (run v s1 r) as [s2 xs] eqn:E2. cbn [fst] in H.
+    specialize (IH s1 s'). rewrite E2 in IH. cbn [fst] in IH. apply IH in H.
+    destruct H as [[s [Hin [Ht Hu]]]|H].
+    + apply Hs in Hin. destruct Hin as [[s0 [Hin0 [Ht0 Hu0]]]|Hin].
+      * left. exists s0. split; [exact Hin0|]. split; congruence.
+      * right. apply in_or_app. left. unfold grant_rec in Hin. rewrite Ht, Hu in Hin. exact Hin.
+    + right. apply in_or_app. auto.
+Qed.
+
+(* keys (repaired code): every key row is wrapped for the profile through whose instance it was created *)
+Definition key_rec (st : wstate) (o : wop) (x : wout) : list (N * user) :=
+  match o, x with
+  | WOp i _ KCreateKey, RKey k => match inst_user st i with Some u => [(k, u)] | None => [] end
+  | _, _ => []
+  end.
+
+Lemma step_keys : forall st o row,
+  In row (keys (fst (step Fixed st o))) ->
+  In row (keys st) \/ In row (key_rec st o (snd (step Fixed st o))).
+Proof.
+  intros st o row H. destruct o as [u|u|i p ttl|i|dt|i t k]; cbn [step] in *.
+  - destruct (existsb (N.eqb u) (profiles st)); auto.
+  - destruct (negb (existsb (N.eqb u) (profiles st))); auto.
+    destruct (store_get (stores st) u); [destruct (_ <? _)|]; auto.
+  - destruct (nth_error (insts st) i) as [[u h]|]; auto.
+    destruct (negb p); auto. destruct (user_live _ _ _); auto.
+  - destruct (nth_error (insts st) i) as [[u h]|]; auto. destruct (user_live _ _ _); auto.
+  - auto.
+  - unfold key_rec, inst_user.
+    destruct (nth_error (insts st) i) as [[u h]|]; auto.
+    destruct (foreign (sessions st) (now st) t u) eqn:Hf; auto.
+    destruct k.
+    5: { destruct (find_session (sessions st) (now st) t) as [s|] eqn:Hs; auto. cbn in *.
+         destruct H as [H|H]; auto. right. left. subst row.
+         apply find_session_some in Hs. destruct Hs as [Hin [Ht Hl]].
+         rewrite (not_foreign_own _ _ _ _ _ Hf Hin Ht Hl). reflexivity. }
+    all: destruct h; cbn [negb] in *; auto; destruct (find_session _ _ _); auto; cbn in *.
+    all: try (destruct (row_get _ _); cbn in *; auto); auto.
+Qed.
+
+Lemma keys_provenance_gen : forall ops st row,
+  In row (keys (fst (run Fixed st ops))) -> In row (keys st) \/ In row (keyops_run Fixed st ops).
+Proof.
+  induction ops as [|o r IH]; intros st row H; cbn in *; auto.
+  pose proof (step_keys st o row) as Hs.
+  destruct (step Fixed st o) as [s1 x] eqn:E. cbn [fst snd] in *.
+  destruct (run Fixed s1 r) as [s2 xs] eqn:E2. cbn [fst] in H.
+  specialize (IH s1 row). rewrite E2 in IH. cbn [fst] in IH. apply IH in H.
+  destruct H as [H|H].
+  - apply Hs in H. destruct H as [H|H]; auto. right. apply in_or_app. left. exact H.
+  - right. apply in_or_app. auto.
+Qed.
+
+(* tokens are granted once: the tokens of the grants of a run are pairwise distinct *)
+Lemma step_grant : forall v st o,
+  (grant_rec st o (snd (step v st o)) = [] /\ next_tok (fst (step v st o)) = next_tok st) \/
+  (exists u, grant_rec st o (snd (step v st o)) = [(next_tok st, u)] /\
+             next_tok (fst (step v st o)) = next_tok st + 1).
+Proof.
+  intros v st o. destruct o as [u|u|i p ttl|i|dt|i t k]; cbn [step].
+  - left. destruct (existsb (N.eqb u) (profiles st)); auto.
+  - left. destruct (negb (existsb (N.eqb u) (profiles st))); auto.
+    destruct (store_get (stores st) u); [destruct (_ <? _)|]; auto.
+  - unfold grant_rec, inst_user. destruct (nth_error (insts st) i) as [[u h]|]; auto.
+    destruct (negb p); auto. destruct (user_live _ _ _); auto.
+    right. exists u. cbn. auto.
+  - left. destruct (nth_error (insts st) i) as [[u h]|]; auto. destruct (user_live _ _ _); auto.
+  - left. auto.
+  - left. unfold grant_rec. split; [reflexivity|].
+    destruct (nth_error (insts st) i) as [[u h]|]; auto.
+    destruct (match v with Fixed => foreign (sessions st) (now st) t u | AsIs => false end); auto.
+    destruct k.
+    5: { destruct (find_session _ _ _); auto. }
+    all: destruct h; cbn [negb]; auto; destruct (find_session _ _ _); auto; cbn.
+    all: try (destruct (row_get _ _); cbn; auto); auto.
+Qed.
+
+Lemma grants_fresh_gen : forall v ops st,
+  (forall p, In p (grants_run v st ops) -> next_tok st <= fst p) /\
+  NoDup (map fst (grants_run v st ops)).
+Proof.
+  intros v ops. induction ops as [|o r IH]; intros st; cbn.
+  - split; [intros p []|constructor].
+  - pose proof (step_grant v st o) as Hs.
+    destruct (step v st o) as [s1 x] eqn:E. cbn [fst snd] in Hs.
+    destruct (IH s1) as [IH1 IH2].
+    fold (grant_rec st o x).
+    destruct Hs as [[Hg Hn]|[u [Hg Hn]]]; rewrite Hg; cbn [app].
+    + split; [|exact IH2]. intros p Hp. specialize (IH1 p Hp). lia.
+    + split.
+      * intros p [Hp|Hp]; [subst p; cbn; lia|]. specialize (IH1 p Hp). lia.
+      * cbn [map fst]. constructor; [|exact IH2].
+        intro Hin. apply in_map_iff in Hin. destruct Hin as [p [Hp Hin]].
+        specialize (IH1 p Hin). lia.
+Qed.
+
+(* ---------- assembled statements ---------- *)
+
+Lemma live_own_elim : forall st t u, live_own st t u = true ->
+  exists s, In s (sessions st) /\ s_tok s = t /\ s_user s = u /\ live (now st) s = true.
+Proof.
+  intros st t u H. unfold live_own in H. apply existsb_exists in H. destruct H as [s [Hin H]].
+  apply andb_true_iff in H. destruct H as [H Hu]. apply andb_true_iff in H. destruct H as [Ht Hl].
+  apply N.eqb_eq in Ht. apply N.eqb_eq in Hu. exists s. auto.
+Qed.
+
+Lemma admitted_granted : forall ops i t k u h,
+  nth_error (insts (fst (run Fixed init ops))) i = Some (u, h) ->
+  admitted (snd (step Fixed (fst (run Fixed init ops)) (WOp i t k))) = true ->
+  In (t, u) (grants_run Fixed init ops) /\ live_own (fst (run Fixed init ops)) t u = true.
+Proof.
+  intros ops i t k u h Hi Ha. pose proof (admitted_own _ _ _ _ _ _ Hi Ha) as Hl. split; [|exact Hl].
+  apply live_own_elim in Hl. destruct Hl as [s [Hin [Ht [Hu _]]]].
+  apply sessions_granted_gen in Hin. destruct Hin as [[s0 [Hin0 _]]|Hin].
+  - cbn in Hin0. contradiction.
+  - rewrite Ht, Hu in Hin. exact Hin.
+Qed.
+
+Lemma tick_expires : forall v st t dt i k,
+  (forall s, In s (sessions st) -> s_tok s = t -> s_exp s < now st + dt) ->
+  admitted (snd (step v (fst (step v st (WTick dt))) (WOp i t k))) = false.
+Proof.
+  intros v st t dt i k H. apply dead_token_rejected. cbn [step fst sessions now].
+  intros s Hin Ht. unfold live. specialize (H s Hin Ht).
+  apply negb_false_iff. apply N.ltb_lt. exact H.
+Qed.
+
+Lemma rows_provenance : forall v ops row,
+  In row (contents (fst (run v init ops))) -> In row (adds_run v init ops).
+Proof.
+  intros v ops row H. apply rows_provenance_gen in H. destruct H as [H|H]; [cbn in H; contradiction|exact H].
+Qed.
+
+Lemma keys_provenance : forall ops row,
+  In row (keys (fst (run Fixed init ops))) -> In row (keyops_run Fixed init ops).
+Proof.
+  intros ops row H. apply keys_provenance_gen in H. destruct H as [H|H]; [cbn in H; contradiction|exact H].
+Qed.
+
+Lemma grants_once : forall v ops, NoDup (map fst (grants_run v init ops)).
+Proof. intros v ops. apply (grants_fresh_gen v ops init). Qed.
